@@ -108,7 +108,11 @@ func (x *Exec) call(st *State, fr *Frame, at ssa.Instruction, cc *ssa.CallCommon
 		return false
 	}
 	if target == nil {
-		// dynamic function value
+		// dynamic function value: calling a nil func panics
+		if fnv.T.Sort == SFn && !cc.IsInvoke() {
+			x.D.DeclareFun("fnil", nil, SFn)
+			x.safety(st, fr, at, "nilcall", Not(Eq(fnv.T, Term{"fnil", SFn})))
+		}
 		x.Abstracted["call through unknown function value"]++
 		return x.callAbstract(st, fr, at, "<dynamic>", nil, args, cc.Signature().Results(), bind, cc)
 	}
